@@ -117,7 +117,7 @@ class Collector:
         return res
 
     def _run_case(self, case: Any, phase: str = "gen") -> Res | None:
-        signal.setitimer(signal.ITIMER_REAL, CASE_TIMEOUT_S)
+        signal.setitimer(signal.ITIMER_REAL, getattr(self.mod, "CASE_TIMEOUT_S", CASE_TIMEOUT_S))
         try:
             res = self.mod.check(case)
         except CaseTimeout:
